@@ -957,9 +957,17 @@ class HTTPResponse(BaseHTTPResponse):
 
         data = self._raw_read(amt)
 
-        flush_decoder = amt is None or (amt != 0 and not data)
+        # Flush the decoder once the raw body is exhausted, also when it was read
+        # in pieces, so that an incomplete content stream is reported.
+        flush_decoder = amt is None or (
+            amt != 0 and (not data or is_fp_closed(self._fp))
+        )
 
-        if not data and len(self._decoded_buffer) == 0:
+        if (
+            not data
+            and len(self._decoded_buffer) == 0
+            and not (amt and decode_content and self._has_decoded_content)
+        ):
             return data
 
         if amt is None:
@@ -989,6 +997,7 @@ class HTTPResponse(BaseHTTPResponse):
                 # For example, the GZ file header takes 10 bytes, we don't want to read
                 # it one byte at a time
                 data = self._raw_read(amt)
+                flush_decoder = not data or is_fp_closed(self._fp)
                 decoded_data = self._decode(data, decode_content, flush_decoder)
                 self._decoded_buffer.put(decoded_data)
             data = self._decoded_buffer.get(amt)
